@@ -40,6 +40,31 @@ NOTES = {
     ("C19", "m3"): "missed at first: unknown ids were always all-unknown; 'one unknown id' mutation added",
     ("C19", "m4"): "missed at first: no route carried a duration field; /config route added",
     ("C06", "m3"): "same change as C08 m2 (independent agents)",
+    # round 3
+    ("C01", "m5"): "concurrency (batch vs snapshot): outside C01's single-driver histories; missed at first by C14 too (writers never inserted batches); batches added to C14, which on the unchanged tree first exposed 600e46e and ee2b01b",
+    ("C02", "m6"): "as C01 m5: caught by C14 once its writers insert batches; rebased by hand after fix cec223c",
+    ("C02", "m5"): "rebased by hand after fix 7b5bc1d",
+    ("C14", "m5"): "same change as C02 m5 (independent agents); rebased by hand after fix 7b5bc1d",
+    ("C03", "m6"): "missed at first: the decimal round trip compared values, so -0 == 0; now compared bit for bit",
+    ("C04", "m5"): "**masked**: Engine.insertLocks (fix cec223c) and the import validation (ccc0008) serialise inserts of one id, the changed check inside hnsw is no longer reachable concurrently; the search for it is what exposed cec223c on the unchanged tree",
+    ("C04", "m6"): "missed at first: generated metadata never carried a `_created_at` of its own; added for memory-enabled indexes",
+    ("C05", "m5"): "**masked**: looking for it showed that the unchanged tree accepted a config it could not journal (fix c8a85c6: refused up front), after which the marshal error the change mishandles cannot occur any more",
+    ("C05", "m6"): "**masked**: rejected batches through VImport were added to the generator and failed on the unchanged tree (fix ccc0008: ids validated before the batch reaches the index)",
+    ("C06", "m5"): "schedule-dependent (window between VDelete's return and its background cascade): caught by C13's delete-then-look op, added for it",
+    ("C07", "m5"): "schedule-dependent (a delete landing inside a running vacuum): caught by C13 after the vacuum-storm scenario and the entry-point / small-index exactness oracles were added",
+    ("C08", "m5"): "missed at first: every generated value and literal was exact in float32; decimals, 2^24+1 and Unix timestamps added",
+    ("C12", "m6"): "missed at first: no history used the hard (physical) unlink; added to the setup of a third of the runs",
+    ("C13", "m6"): "missed at first: no index in C13 had an auto-link rule; a third of the runs now have one. Rebased by hand after fix cec223c",
+    ("C15", "m5"): "schedule-dependent (lost update between concurrent reinforcements): caught by C13's counting oracle, not by C15's single-driver histories",
+    ("C15", "m6"): "missed at first: C15 never asked a hybrid query; added with the bound 'no score above the decay factor'",
+    ("C16", "m5"): "missed at first: restarts were clean; a crash image taken the moment the revocation is acknowledged added",
+    ("C17", "m5"): "missed at first: the harness let the asynchronous cache save finish after every request; back-to-back requests added (three oracle corrections on the way, section 10.4)",
+    ("C17", "m6"): "missed at first: deny patterns were plain words; patterns opening with a group / inline flag and mixed-case prompts added",
+    ("C18", "m5"): "missed at first: one mutator at a time; an op that touches two fresh slots from two goroutines at once added (what the parallel batch path does)",
+    ("C18", "m6"): "same change as C06 m6 and C04 m1 (batch path stores un-normalised cosine vectors): an engine-level effect, seen by C06's search oracle, not by C18's arena-level harness",
+    ("C19", "m5"): "schedule-dependent (an SSE subscriber leaving while a write emits): caught by C13 (slow-subscriber runs + Close), C19's requests are sequential",
+    ("C19", "m6"): "missed at first: no route got URL parameters; paging parameters for /export added",
+    ("C10", "m6"): "same change as C11 m4 (independent agents)",
 }
 print("| prop | change | what it breaks (agent's title) | demo confirmed | caught by | note |")
 print("|---|---|---|---|---|---|")
@@ -53,5 +78,7 @@ for d in sorted(glob.glob(os.path.join(V, "seeded", "*", "*"))):
     ok = c.get("patch_applies") and c.get("builds") and c.get("demo_on_pristine") == "pass" and c.get("demo_on_mutant") == "fail"
     r = sens.get((prop, name), {})
     by = ", ".join(k for k, v in (r.get("checks") or {}).items() if v.get("exit") == 1) or ("**missed**" if r else "not run")
+    if m.get("masked_by_fix"):
+        by, ok = "masked by " + m["masked_by_fix"]["commit"], "yes, before " + m["masked_by_fix"]["commit"]
     title = (m.get("title") or "").replace("|", "/")
-    print("| %s | %s | %s | %s | %s | %s |" % (prop, name, title[:140], "yes" if ok else "see note", by, NOTES.get((prop, name), "")))
+    print("| %s | %s | %s | %s | %s | %s |" % (prop, name, title[:140], ok if isinstance(ok, str) else ("yes" if ok else "see note"), by, NOTES.get((prop, name), "")))
